@@ -59,17 +59,32 @@ impl GameMods {
     /// `1.0`.
     pub(crate) fn clock_rate(&self) -> f64 {
         match self {
-            Self::Lazer(ref mods) => mods
-                .iter()
-                .find_map(|m| match m.intermode() {
-                    GameModIntermode::DoubleTime
-                    | GameModIntermode::HalfTime
-                    | GameModIntermode::Nightcore
-                    | GameModIntermode::Daycore => m.clock_rate(),
-                    _ => None,
-                })
-                .unwrap_or(1.0),
-            Self::Intermode(ref mods) => mods.legacy_clock_rate(),
+            // If both a speed-up and a slow-down mod are contained, the
+            // speed-up takes precedence just like for legacy mods.
+            Self::Lazer(ref mods) => {
+                let find = |speed_up: bool| {
+                    mods.iter().find_map(|m| match m.intermode() {
+                        GameModIntermode::DoubleTime | GameModIntermode::Nightcore if speed_up => {
+                            m.clock_rate()
+                        }
+                        GameModIntermode::HalfTime | GameModIntermode::Daycore if !speed_up => {
+                            m.clock_rate()
+                        }
+                        _ => None,
+                    })
+                };
+
+                find(true).or_else(|| find(false)).unwrap_or(1.0)
+            }
+            Self::Intermode(ref mods) => {
+                if mods.contains(GameModIntermode::DoubleTime)
+                    || mods.contains(GameModIntermode::Nightcore)
+                {
+                    1.5
+                } else {
+                    mods.legacy_clock_rate()
+                }
+            }
             Self::Legacy(mods) => mods.clock_rate(),
         }
     }
